@@ -210,6 +210,9 @@ type c45Case struct {
 	Fusion  int        `json:"fusion"` // 0 stateless(default) 1 none 2 aggressive
 	ChanCap int        `json:"chan_cap,omitempty"`
 
+	mons     []*c45Mon       // per real stage (source and flows), set by run
+	batchIdx []int           // per stage group: real stage index of its Batch stage (0 = none)
+	batchOut []*c45BatchOut  // per stage group: what a Batch+hash group's function saw
 	sentinel *c45Err
 	probes   []*c45Probe // per stage group; nil when the head stage has no user function
 	ooo      atomic.Int64
@@ -412,6 +415,8 @@ func c45GenCase(seed int64) *c45Case {
 	c.ChanCap = []int{0, 1, 16}[rng.Intn(3)]
 	c.Fusion = []int{0, 0, 1, 2}[rng.Intn(4)]
 	c.probes = make([]*c45Probe, len(c.Stages))
+	c.batchIdx = make([]int, len(c.Stages))
+	c.batchOut = make([]*c45BatchOut, len(c.Stages))
 	return c
 }
 
@@ -487,9 +492,13 @@ func (c *c45Case) attach(src Source[int], i int) Source[int] {
 		c.probes[i] = p
 		return src.Via(FlatMap(func(x int) []int { p.rec(x); return s.expand(x) }))
 	case "batchflat":
+		c.batchIdx[i] = len(src.stages)
 		return Via(Via(src, Batch[int](s.N, time.Hour)), Flatten[int]())
 	case "batchhash":
-		return Via(Via(src, Batch[int](s.N, time.Hour)), Map(c45HashBatch))
+		c.batchIdx[i] = len(src.stages)
+		ob := &c45BatchOut{}
+		c.batchOut[i] = ob
+		return Via(Via(src, Batch[int](s.N, time.Hour)), Map(func(b []int) int { ob.rec(len(b)); return c45HashBatch(b) }))
 	case "scan":
 		p := &c45Probe{}
 		c.probes[i] = p
@@ -542,6 +551,168 @@ func (c *c45Case) source(stop <-chan struct{}) Source[int] {
 		return Unfold(0, func(i int) (int, int, bool) { return i + 1, in[i], i+1 < len(in) })
 	}
 	return Of(in...)
+}
+
+// c45Mon wraps a stage actor and records the stream-protocol messages it receives.
+// It only observes; every message is handed to the wrapped actor unchanged.
+type c45Mon struct {
+	inner      actor.Actor
+	started    atomic.Bool
+	stopped    atomic.Bool
+	wired      atomic.Bool
+	early      atomic.Int64 // stream messages handled before the stage's stageWire
+	firstEarly atomic.Value // string
+	elemsIn    atomic.Int64
+	sliceElems atomic.Int64 // sum of len(value) over []int elements (output of a Batch upstream)
+	maxSlice   atomic.Int64
+	reqIn      atomic.Int64 // demand signalled by the downstream stage
+	completeIn atomic.Int64
+}
+
+func (m *c45Mon) PreStart(ctx *actor.Context) error {
+	m.started.Store(true)
+	return m.inner.PreStart(ctx)
+}
+
+func (m *c45Mon) PostStop(ctx *actor.Context) error {
+	m.stopped.Store(true)
+	return m.inner.PostStop(ctx)
+}
+
+func (m *c45Mon) note(what string) {
+	if !m.wired.Load() {
+		m.early.Add(1)
+		m.firstEarly.CompareAndSwap(nil, what)
+	}
+}
+
+func (m *c45Mon) Receive(rctx *actor.ReceiveContext) {
+	switch msg := rctx.Message().(type) {
+	case *stageWire:
+		m.wired.Store(true)
+	case *streamElement:
+		m.note("streamElement")
+		m.elemsIn.Add(1)
+		if b, ok := msg.value.([]int); ok {
+			m.sliceElems.Add(int64(len(b)))
+			for {
+				cur := m.maxSlice.Load()
+				if int64(len(b)) <= cur || m.maxSlice.CompareAndSwap(cur, int64(len(b))) {
+					break
+				}
+			}
+		}
+	case *streamRequest:
+		m.note("streamRequest")
+		m.reqIn.Add(msg.n)
+	case *streamComplete:
+		m.note("streamComplete")
+		m.completeIn.Add(1)
+	case *streamError:
+		m.note("streamError")
+	case *streamCancel:
+		m.note("streamCancel")
+	}
+	m.inner.Receive(rctx)
+}
+
+// c45Monitored returns src with every stage actor wrapped in a c45Mon. Stages that the
+// materializer fuses are replaced by a fused actor and are then not observed.
+func c45Monitored(src Source[int]) (Source[int], []*c45Mon) {
+	mons := make([]*c45Mon, len(src.stages))
+	stages := make([]*stage, len(src.stages))
+	for i, st := range src.stages {
+		m := &c45Mon{}
+		mons[i] = m
+		cp := *st
+		orig := st.actorFn
+		cp.actorFn = func(cfg StageConfig) actor.Actor {
+			m.inner = orig(cfg)
+			return m
+		}
+		stages[i] = &cp
+	}
+	return Source[int]{stages: stages}, mons
+}
+
+// c45BatchOut records the batches a Batch+Map(hash) group handed to the hash function.
+type c45BatchOut struct {
+	batches atomic.Int64
+	elems   atomic.Int64
+	maxLen  atomic.Int64
+}
+
+func (b *c45BatchOut) rec(n int) {
+	b.batches.Add(1)
+	b.elems.Add(int64(n))
+	for {
+		cur := b.maxLen.Load()
+		if int64(n) <= cur || b.maxLen.CompareAndSwap(cur, int64(n)) {
+			break
+		}
+	}
+}
+
+// rootCause labels a failing case with what the protocol monitors saw. The labels only
+// refine the signature of a violation found by the oracle; they never create one.
+//   - msg-before-wire: a stage handled a stream message before its stageWire (its
+//     upstream/downstream PIDs were still nil)
+//   - batch-flush-skipped: a Batch stage emitted a batch larger than n, or completed while
+//     still holding elements, or sits on a full window although its downstream has
+//     outstanding demand (batchFlowActor.flush does nothing when downstreamDemand <= 0 and
+//     nothing flushes when demand arrives)
+func (c *c45Case) rootCause(o c45Outcome) (labels []string, facts []string) {
+	early := int64(0)
+	for i, m := range c.mons {
+		if m != nil && m.started.Load() && m.early.Load() > 0 {
+			early += m.early.Load()
+			what, _ := m.firstEarly.Load().(string)
+			facts = append(facts, fmt.Sprintf("real stage %d handled %d stream message(s) before its stageWire (first: %s)", i, m.early.Load(), what))
+		}
+	}
+	batchBad := false
+	for g := range c.Stages {
+		s := &c.Stages[g]
+		if s.Kind != "batchflat" && s.Kind != "batchhash" {
+			continue
+		}
+		b := c.batchIdx[g]
+		if b <= 0 || b+1 >= len(c.mons) || !c.mons[b].started.Load() {
+			continue
+		}
+		bm := c.mons[b]
+		in, demand, completed := bm.elemsIn.Load(), bm.reqIn.Load(), bm.completeIn.Load() > 0
+		var outBatches, outElems, maxLen int64
+		if s.Kind == "batchhash" {
+			ob := c.batchOut[g]
+			outBatches, outElems, maxLen = ob.batches.Load(), ob.elems.Load(), ob.maxLen.Load()
+		} else {
+			dm := c.mons[b+1]
+			outBatches, outElems, maxLen = dm.elemsIn.Load(), dm.sliceElems.Load(), dm.maxSlice.Load()
+		}
+		var why []string
+		if maxLen > int64(s.N) {
+			why = append(why, "emitted a batch larger than n")
+		}
+		if o.Done && o.Err == nil && completed && in > outElems {
+			why = append(why, "completed while holding elements")
+		}
+		alive := !bm.stopped.Load() && (!c.mons[b+1].started.Load() || !c.mons[b+1].stopped.Load())
+		if !o.Done && alive && demand > outBatches && (in-outElems >= int64(s.N) || (completed && in > outElems)) {
+			why = append(why, "holds a full window (or the tail after upstream completion) although the downstream has outstanding demand")
+		}
+		if len(why) > 0 {
+			batchBad = true
+			facts = append(facts, fmt.Sprintf("group %d Batch(%d): elements in=%d, batches out=%d carrying %d elements, largest batch=%d, demand received=%d, upstream completed=%v: %s", g, s.N, in, outBatches, outElems, maxLen, demand, completed, strings.Join(why, "; ")))
+		}
+	}
+	if early > 0 {
+		labels = append(labels, "msg-before-wire")
+	}
+	if batchBad {
+		labels = append(labels, "batch-flush-skipped")
+	}
+	return labels, facts
 }
 
 // c45Outcome is what was observed for one run.
@@ -654,6 +825,7 @@ func (c *c45Case) run(sys actor.ActorSystem) c45Outcome {
 	for i := range c.Stages {
 		src = c.attach(src, i)
 	}
+	src, c.mons = c45Monitored(src)
 	var mu sync.Mutex
 	var got []int
 	var doneSeen atomic.Bool
@@ -898,8 +1070,30 @@ func (c *c45Case) judge(r *verifrt.Run, o c45Outcome, e c45Expect) (bad bool) {
 		return d
 	}
 	kinds := strings.Join(c45Uniq(c.kinds()), "+")
+	labels, facts := c.rootCause(o)
+	cause := strings.Join(labels, "+")
+	// where: the root-cause labels of the protocol monitors when there are any, the
+	// given location otherwise
+	where := func(loc string) string {
+		if cause != "" {
+			return cause
+		}
+		return loc
+	}
+	baseDetail := detail
+	detail = func(extra map[string]any) map[string]any {
+		d := baseDetail(extra)
+		if len(facts) > 0 {
+			d["protocol_monitor"] = facts
+		}
+		return d
+	}
 	if o.RunErr != nil {
-		r.Violation("run-failed:"+kinds, detail(map[string]any{"run_err": o.RunErr.Error()}))
+		if strings.Contains(o.RunErr.Error(), "wire stage") && strings.Contains(o.RunErr.Error(), "not alive") {
+			r.Violation("run-failed:wire-stage-actor-not-alive", detail(map[string]any{"run_err": o.RunErr.Error()}))
+			return true
+		}
+		r.Violation("run-failed:"+where(kinds), detail(map[string]any{"run_err": o.RunErr.Error()}))
 		return true
 	}
 	if o.Stuck != "" {
@@ -909,7 +1103,7 @@ func (c *c45Case) judge(r *verifrt.Run, o c45Outcome, e c45Expect) (bad bool) {
 				flow = append(flow, fmt.Sprintf("%d:%s saw %d of %d", i, c.Stages[i].Kind, len(p.snapshot()), len(e.StageIn[i])))
 			}
 		}
-		r.Violation("stream-never-completes:"+o.StuckMode+":stages="+kinds+":sink="+c.Sink, detail(map[string]any{"stuck": o.Stuck, "progress_per_probed_stage": flow}))
+		r.Violation("stream-never-completes:"+o.StuckMode+":"+where("stages="+kinds+":sink="+c.Sink), detail(map[string]any{"stuck": o.Stuck, "progress_per_probed_stage": flow}))
 		return true
 	}
 	if !o.Done {
@@ -934,14 +1128,14 @@ func (c *c45Case) judge(r *verifrt.Run, o c45Outcome, e c45Expect) (bad bool) {
 		case o.Err == nil:
 			class, info := c45Diff(o.Got, e.Want, e.Ordered, true)
 			info["prefix_class"] = class
-			r.Violation("stage-error-not-reported:stages="+kinds, detail(info))
+			r.Violation("stage-error-not-reported:"+where("stages="+kinds), detail(info))
 			return true
 		case !errors.Is(o.Err, error(c.sentinel)) && o.Err != error(c.sentinel):
-			r.Violation("stage-error-replaced:stages="+kinds, detail(nil))
+			r.Violation("stage-error-replaced:"+where("stages="+kinds), detail(nil))
 			return true
 		}
 		if class, info := c45Diff(o.Got, e.Want, e.Ordered, true); class != "" {
-			r.Violation(class+":stages="+kinds, detail(info))
+			r.Violation(class+":"+where("stages="+kinds), detail(info))
 			return true
 		}
 		return bad
@@ -951,14 +1145,14 @@ func (c *c45Case) judge(r *verifrt.Run, o c45Outcome, e c45Expect) (bad bool) {
 			r.Violation(fmt.Sprintf("resume-strategy-not-honoured:fusion=%d", c.Fusion), detail(map[string]any{"note": "TryMap(...).WithErrorStrategy(Resume) failed the stream instead of skipping the element"}))
 			return true
 		}
-		r.Violation("unexpected-stream-error:stages="+kinds, detail(nil))
+		r.Violation("unexpected-stream-error:"+where("stages="+kinds), detail(nil))
 		return true
 	}
 	if class, info := c45Diff(o.Got, e.Want, e.Ordered, false); class != "" {
 		at, rep := c.culprit(e)
 		info["attribution"] = rep
 		info["at"] = at
-		r.Violation(class+":at="+at, detail(info))
+		r.Violation(class+":"+where("at="+at), detail(info))
 		return true
 	}
 	return bad
@@ -1081,6 +1275,14 @@ func TestVerif_C45(t *testing.T) {
 			}
 			if e.Failed {
 				r.Count("expected_error_cases", 1)
+			}
+			for _, m := range c.mons {
+				if m != nil && m.started.Load() {
+					r.Count("monitored_stage_actors", 1)
+					if m.early.Load() > 0 {
+						r.Count("stage_actors_that_handled_a_message_before_their_wiring", 1)
+					}
+				}
 			}
 			if !e.Ordered {
 				r.Count("multiset_cases", 1)
